@@ -935,99 +935,500 @@ Proof.
   split; [exact Hf|]. apply outside_known. exact Hf.
 Qed.
 
-(* ------------------------------------------------------------------ starvation *)
+(* ------------------------------------------------------------------ bounded overtaking (the liveness half) *)
 (* how often room r is granted to others than c *)
-Definition overtaken (c r : N) (gss : list (list grant)) : nat :=
-  length (filter (fun g : grant => N.eqb (snd g) r && negb (N.eqb (fst (fst g)) c)) (concat gss)).
-(* "every requested room is eventually granted as long as granted rooms are released": a waiting
-   request is overtaken a bounded number of times *)
-Definition C20_no_starvation : Prop := forall max tr1 c r,
-  let s := state_after (init max) tr1 in
-  (exists p, In p (queue s) /\ p_c p = c /\ In r (p_rooms p)) ->
-  exists bound, forall tr2,
-    (forall k, ~ In (DropChan c k) tr2) ->
-    (forall g, In g (concat (run_from s tr2)) -> cr g <> (c, r)) ->
-    (overtaken c r (run_from s tr2) <= bound)%nat.
+Definition ov1 (c r : N) (g : grant) : bool := N.eqb (snd g) r && negb (N.eqb (fst (fst g)) c).
+Definition overtaken (c r : N) (gss : list (list grant)) : nat := length (filter (ov1 c r) (concat gss)).
+Definition notc (c : N) (l : list preq) : Prop := forall x, In x l -> p_c x <> c.
+Definition untainted (c : N) (dd : list (N * N)) : Prop := forall k, ~ In (c, k) dd.
+Definition to_c (c : N) (g : grant) : bool := N.eqb (fst (fst g)) c.
 
-Lemma run_from_app : forall a b s, run_from s (a ++ b) = run_from s a ++ run_from (state_after s a) b.
+Lemma untainted_alive_p : forall c dd p, untainted c dd -> p_c p = c -> alive dd p = true.
 Proof.
-  induction a as [|m a IH]; intros b s; [reflexivity|]. cbn [app run_from state_after].
-  destruct (step s m) as [s' g]. cbn [fst]. rewrite IH. reflexivity.
+  intros c dd p Hu Hc. unfold alive. apply negb_true_iff. apply mem_pair_false. rewrite Hc. apply Hu.
 Qed.
-Lemma state_after_app : forall a b s, state_after s (a ++ b) = state_after (state_after s a) b.
-Proof. induction a as [|m a IH]; intros b s; [reflexivity|]. cbn [app state_after]. apply IH. Qed.
 
-(* limit 2, three connections: 1 waits for room 5; 2 keeps re-requesting room 6 while it
-   synchronises it, 3 keeps re-requesting room 5 while it synchronises it; room 6 is always
-   released before room 5.  Every release comes from the holder, connection 1 never loses its
-   channel — and is never served. *)
-Definition starve_setup : list msg :=
-  [Request 3 [5] 0; Request 2 [6] 0; Request 1 [5] 0; Request 2 [6] 0; Request 3 [5] 0;
-   Unlock 2 6; Request 2 [6] 0; Unlock 3 5; Request 3 [5] 0]%N.
-Definition starve_cycle : list msg := [Unlock 2 6; Request 2 [6] 0; Unlock 3 5; Request 3 [5] 0]%N.
-Definition starve_grants : list (list grant) := [[(2, 0, 6)]; []; [(3, 0, 5)]; []]%N.
-Definition starve_state : st := state_after (init 2) starve_setup.
-Definition starve_ghost : list (N * N) := [(3, 5); (2, 6)]%N.
-Fixpoint rep {A} (n : nat) (l : list A) : list A := match n with O => [] | S k => l ++ rep k l end.
+Lemma scan_prefix : forall t e lk dd q' og, scan_q t e lk dd = (q', og) -> exists tail, q' = e ++ tail.
+Proof.
+  induction t as [|p t IH]; intros e lk dd q' og H; cbn [scan_q] in H.
+  - inversion H; subst. exists []. rewrite app_nil_r. reflexivity.
+  - destruct (try_rooms (length (p_rooms p)) (p_rooms p) lk (alive dd p)) as [rooms' g]. destruct g.
+    + inversion H; subst. eexists. reflexivity.
+    + apply IH in H. destruct H as [tail Ht]. subst q'. unfold requeue. destruct rooms'; [exists tail; reflexivity|].
+      eexists. rewrite <- app_assoc. reflexivity.
+Qed.
 
-Lemma starve_period :
-  state_after starve_state starve_cycle = starve_state /\
-  run_from starve_state starve_cycle = starve_grants /\
-  ghost_after (init 2) [] starve_setup = (starve_state, starve_ghost) /\
-  ghost_after starve_state starve_ghost starve_cycle = (starve_state, starve_ghost) /\
-  foreign_from (init 2) [] starve_setup = false /\
-  foreign_from starve_state starve_ghost starve_cycle = false.
+Definition ovg (c r : N) (og : option grant) : nat := match og with Some g => if ov1 c r g then 1 else 0 | None => 0 end.
+
+(* one scan of acquire_lock, seen from a live entry of c that waits for r and is not served by it:
+   it is still there, still wants r, and the number of entries before it has decreased by at least
+   the number of times r was given to somebody else *)
+Lemma scan_epoch : forall pre e p post lk dd q' og c r,
+  scan_q (pre ++ p :: post) e lk dd = (q', og) ->
+  p_c p = c -> alive dd p = true -> In r (p_rooms p) -> notc c pre -> notc c e ->
+  (forall g, og = Some g -> to_c c g = false) ->
+  exists pre' p' post', q' = pre' ++ p' :: post' /\ same_peer p' p /\ In r (p_rooms p') /\ notc c pre' /\
+    length pre' + ovg c r og <= length e + length pre.
+Proof.
+  induction pre as [|x pre IH]; intros e p post lk dd q' og c r H Hc Hal Hr Hnp Hne Hog; cbn [app scan_q] in H.
+  - rewrite <- (app_nil_r (p_rooms p)) in H at 2. rewrite try_rooms_scan in H.
+    destruct (scan_rooms (p_rooms p) [] lk (alive dd p)) as [rooms' g] eqn:Es.
+    apply scan_rooms_spec in Es. destruct Es as (S1 & S2 & S3 & S4 & S5).
+    destruct g as [r0|].
+    + inversion H; subst. exfalso. specialize (Hog _ eq_refl). unfold to_c in Hog. cbn [fst] in Hog. rewrite N.eqb_refl in Hog. discriminate.
+    + destruct (S4 Hal r (or_introl Hr)) as [Hx|Hin]; [discriminate|].
+      assert (Hlk : memN r lk = true) by (destruct (S2 eq_refl r Hin) as [[]|Hm]; exact Hm).
+      assert (Hq : requeue e p rooms' = e ++ [{| p_c := p_c p; p_rooms := rooms'; p_gen := p_gen p |}]).
+      { unfold requeue. destruct rooms'; [destruct Hin | reflexivity]. }
+      rewrite Hq in H. pose proof H as H0. apply scan_prefix in H0. destruct H0 as [tail Ht].
+      exists e, {| p_c := p_c p; p_rooms := rooms'; p_gen := p_gen p |}, tail.
+      split; [rewrite Ht, <- app_assoc; reflexivity|]. split; [split; reflexivity|]. split; [exact Hin|]. split; [exact Hne|].
+      assert (Hov : ovg c r og = 0).
+      { destruct og as [[[c' k'] r']|]; [|reflexivity]. apply scan_q_spec in H. destruct H as (_ & Q2 & _).
+        destruct (Q2 c' k' r' eq_refl) as (Hfree & _). unfold ovg, ov1. cbn [snd fst].
+        destruct (N.eqb r' r) eqn:E; [|reflexivity]. apply N.eqb_eq in E. subst. congruence. }
+      rewrite Hov. cbn [length]. lia.
+  - assert (Hx : p_c x <> c) by (apply Hnp; left; reflexivity).
+    assert (Hnp' : notc c pre) by (intros y Hy; apply Hnp; right; exact Hy).
+    destruct (try_rooms (length (p_rooms x)) (p_rooms x) lk (alive dd x)) as [rooms' g] eqn:Et. destruct g as [r0|].
+    + inversion H; subst q' og. clear H.
+      exists (e ++ pre), p, (requeue post x rooms').
+      split; [rewrite requeue_app, <- app_assoc; f_equal; f_equal; unfold requeue; destruct rooms'; reflexivity|].
+      split; [split; reflexivity|]. split; [exact Hr|]. split.
+      * intros y Hy. apply in_app_or in Hy. destruct Hy; [apply Hne | apply Hnp']; assumption.
+      * rewrite app_length. cbn [length ovg]. destruct (ov1 c r (p_c x, p_gen x, r0)); lia.
+    + assert (Hne' : notc c (requeue e x rooms')).
+      { intros y Hy. apply in_requeue in Hy. destruct Hy as [Hy|[_ Hy]]; [apply Hne; exact Hy | subst y; exact Hx]. }
+      destruct (IH (requeue e x rooms') p post lk dd q' og c r H Hc Hal Hr Hnp' Hne' Hog) as (pre' & p' & post' & A & B & C & D & E).
+      exists pre', p', post'. repeat split; try assumption; try apply B.
+      assert (length (requeue e x rooms') <= S (length e)).
+      { unfold requeue. destruct rooms'; [lia | rewrite app_length; cbn; lia]. }
+      cbn [length]. lia.
+Qed.
+
+Definition ovl (c r : N) (g : list grant) : nat := length (filter (ov1 c r) g).
+(* where c's entry stands *)
+Definition stands (c r : N) (s : st) (n : nat) : Prop :=
+  exists pre p post, queue s = pre ++ p :: post /\ p_c p = c /\ In r (p_rooms p) /\ notc c pre /\ length pre <= n.
+
+Lemma acquire_lock_epoch : forall c r s n s' g,
+  stands c r s n -> untainted c (dead s) -> acquire_lock s = (s', g) -> existsb (to_c c) g = false ->
+  stands c r s' (n - ovl c r g) /\ ovl c r g <= n /\ untainted c (dead s').
+Proof.
+  intros c r s n s' g (pre & p & post & Hq & Hc & Hr & Hn & Hl) Hu H Hno.
+  apply acquire_lock_spec in H. destruct H as (q' & og & Hs & Hq' & Hd & Hcase).
+  rewrite Hq in Hs.
+  assert (Hog : forall g0, og = Some g0 -> to_c c g0 = false).
+  { intros g0 Hg0. destruct Hcase as [(Ho & _)|(c0 & k0 & r0 & Ho & Hg & _)]; [congruence|].
+    subst g. rewrite Ho in Hg0. inversion Hg0; subst. cbn [existsb] in Hno. rewrite orb_false_r in Hno. exact Hno. }
+  destruct (scan_epoch pre [] p post _ _ q' og c r Hs Hc (untainted_alive_p c _ p Hu Hc) Hr Hn ltac:(intros y []) Hog)
+    as (pre' & p' & post' & A & [B1 B2] & C & D & E).
+  cbn [length] in E.
+  assert (Hov : ovl c r g = ovg c r og).
+  { destruct Hcase as [(Ho & Hg & _)|(c0 & k0 & r0 & Ho & Hg & _)]; subst g og; unfold ovl, ovg; cbn [filter]; [reflexivity|].
+    destruct (ov1 c r (c0, k0, r0)); reflexivity. }
+  rewrite Hov. split; [|split; [lia | rewrite Hd; exact Hu]].
+  exists pre', p', post'. rewrite Hq'. split; [exact A|]. split; [congruence|]. split; [exact C|]. split; [exact D | lia].
+Qed.
+
+Lemma acquire_n_epoch : forall c r k s n s' g,
+  stands c r s n -> untainted c (dead s) -> acquire_n k s = (s', g) -> existsb (to_c c) g = false ->
+  stands c r s' (n - ovl c r g) /\ ovl c r g <= n /\ untainted c (dead s').
+Proof.
+  induction k as [|k IH]; intros s n s' g Hst Hu H Hno; cbn [acquire_n] in H.
+  - inversion H; subst. cbn [ovl filter length]. rewrite Nat.sub_0_r. auto with arith.
+  - destruct (acquire_lock s) as [s1 g1] eqn:E1. destruct (acquire_n k s1) as [s2 g2] eqn:E2. inversion H; subst.
+    rewrite existsb_app in Hno. apply orb_false_iff in Hno. destruct Hno as [N1 N2].
+    destruct (acquire_lock_epoch c r s n s1 g1 Hst Hu E1 N1) as (St1 & L1 & U1).
+    destruct (IH s1 _ s' g2 St1 U1 E2 N2) as (St2 & L2 & U2).
+    unfold ovl in *. rewrite filter_app, app_length.
+    split; [|split; [lia | exact U2]].
+    destruct St2 as (pre & p & post & A & B & C & D & E). exists pre, p, post. repeat split; try assumption. lia.
+Qed.
+
+Lemma merge_req_stands : forall pre p post c r c' rooms k,
+  p_c p = c -> In r (p_rooms p) -> notc c pre ->
+  exists pre' p' post', merge_req (pre ++ p :: post) c' rooms k = pre' ++ p' :: post' /\
+    p_c p' = c /\ In r (p_rooms p') /\ notc c pre' /\ length pre' = length pre.
+Proof.
+  induction pre as [|x pre IH]; intros p post c r c' rooms k Hc Hr Hn; cbn [app merge_req].
+  - destruct (N.eqb (p_c p) c') eqn:E.
+    + apply N.eqb_eq in E. eexists [], _, post. split; [reflexivity|]. cbn [p_c p_rooms].
+      split; [congruence|]. split; [apply add_rooms_In; left; exact Hr|]. split; [intros y []| reflexivity].
+    + exists [], p, (merge_req post c' rooms k). repeat split; auto; intros y [].
+  - assert (Hx : p_c x <> c) by (apply Hn; left; reflexivity).
+    assert (Hn' : notc c pre) by (intros y Hy; apply Hn; right; exact Hy).
+    destruct (N.eqb (p_c x) c') eqn:E.
+    + apply N.eqb_eq in E. eexists (_ :: pre), p, post. split; [reflexivity|]. repeat split; auto.
+      intros y [Hy|Hy]; [subst y; cbn [p_c]; congruence | apply Hn'; exact Hy].
+    + destruct (IH p post c r c' rooms k Hc Hr Hn') as (pre' & p' & post' & A & B & C & D & El).
+      exists (x :: pre'), p', post'. rewrite A. split; [reflexivity|]. repeat split; auto.
+      * intros y [Hy|Hy]; [subst y; exact Hx | apply D; exact Hy].
+      * cbn [length]. rewrite El. reflexivity.
+Qed.
+Lemma enqueue_stands : forall c r q n c' rooms k,
+  (exists pre p post, q = pre ++ p :: post /\ p_c p = c /\ In r (p_rooms p) /\ notc c pre /\ length pre <= n) ->
+  exists pre p post, enqueue q c' rooms k = pre ++ p :: post /\ p_c p = c /\ In r (p_rooms p) /\ notc c pre /\ length pre <= n.
+Proof.
+  intros c r q n c' rooms k (pre & p & post & Hq & Hc & Hr & Hn & Hl). subst q. unfold enqueue.
+  destruct (existsb (fun p0 => N.eqb (p_c p0) c') (pre ++ p :: post)).
+  - destruct (merge_req_stands pre p post c r c' rooms k Hc Hr Hn) as (pre' & p' & post' & A & B & C & D & E).
+    exists pre', p', post'. repeat split; auto. lia.
+  - exists pre, p, (post ++ [{| p_c := c'; p_rooms := rev rooms; p_gen := k |}]).
+    rewrite <- app_assoc. repeat split; auto.
+Qed.
+
+Definition not_drop_of (c : N) (m : msg) : Prop := forall k, m <> DropChan c k.
+
+Lemma step_epoch : forall c r s n m s' g,
+  stands c r s n -> untainted c (dead s) -> not_drop_of c m -> step s m = (s', g) -> existsb (to_c c) g = false ->
+  stands c r s' (n - ovl c r g) /\ ovl c r g <= n /\ untainted c (dead s').
+Proof.
+  intros c r s n m s' g Hst Hu Hnd H Hno. destruct m as [c' rooms k|who r'|c' k]; cbn [step] in H.
+  - eapply acquire_n_epoch; [| |exact H|exact Hno]; [|exact Hu].
+    unfold stands. cbn [queue]. apply (enqueue_stands c r (queue s) n c' rooms k). exact Hst.
+  - destruct (memN r' (locked s)).
+    + eapply acquire_lock_epoch; [| |exact H|exact Hno]; [exact Hst | exact Hu].
+    + inversion H; subst. cbn [ovl filter length]. rewrite Nat.sub_0_r. auto with arith.
+  - inversion H; subst. cbn [ovl filter length dead queue]. rewrite Nat.sub_0_r. split; [exact Hst|]. split; [lia|].
+    intros k0 [Hk|Hk]; [inversion Hk; subst; apply (Hnd k0); reflexivity | exact (Hu k0 Hk)].
+Qed.
+
+(* THE liveness half, per waiting period: while connection c waits for room r on live channels and
+   is granted nothing, room r is given to other connections at most as many times as there are
+   entries before c's in the queue *)
+Theorem bounded_overtaking : forall tr c r s n,
+  stands c r s n -> untainted c (dead s) -> (forall m, In m tr -> not_drop_of c m) ->
+  (forall g, In g (concat (run_from s tr)) -> to_c c g = false) ->
+  overtaken c r (run_from s tr) <= n.
+Proof.
+  induction tr as [|m tl IH]; intros c r s n Hst Hu Hnd Hno; [cbn; lia|].
+  cbn [run_from] in *. destruct (step s m) as [s' g] eqn:Es. cbn [concat] in Hno.
+  assert (Hg : existsb (to_c c) g = false).
+  { destruct (existsb (to_c c) g) eqn:E; [|reflexivity]. apply existsb_exists in E. destruct E as (x & Hx & Ex).
+    rewrite (Hno x (in_or_app _ _ _ (or_introl Hx))) in Ex. discriminate. }
+  destruct (step_epoch c r s n m s' g Hst Hu (Hnd m (or_introl eq_refl)) Es Hg) as (St & L & U).
+  assert (IH' := IH c r s' _ St U (fun m0 Hm0 => Hnd m0 (or_intror Hm0)) (fun x Hx => Hno x (in_or_app _ _ _ (or_intror Hx)))).
+  unfold overtaken in *. cbn [concat]. rewrite filter_app, app_length. fold (ovl c r g). lia.
+Qed.
+
+
+(* ------------------------------------------------------------------ the overtaking bound of the oracle holds on every history *)
+Lemma merge_req_circuits : forall q c rooms k, map p_c (merge_req q c rooms k) = map p_c q.
+Proof.
+  induction q as [|p q IH]; intros c rooms k; [reflexivity|]. cbn [merge_req].
+  destruct (N.eqb (p_c p) c) eqn:E; cbn [map p_c]; [apply N.eqb_eq in E; rewrite E; reflexivity | rewrite IH; reflexivity].
+Qed.
+Lemma requeue_circuits : forall e p rs, exists l, map p_c (requeue e p rs) = map p_c e ++ l /\ (l = [] \/ l = [p_c p]).
+Proof. intros. unfold requeue. destruct rs; [exists []; rewrite app_nil_r; auto | exists [p_c p]; rewrite map_app; auto]. Qed.
+
+(* a scan keeps the circuits distinct, invents none, and does not lengthen the queue *)
+Lemma scan_circuits : forall t e lk dd q' og, scan_q t e lk dd = (q', og) ->
+  NoDup (map p_c (t ++ e)) ->
+  NoDup (map p_c q') /\ incl (map p_c q') (map p_c (t ++ e)) /\ length q' <= length (t ++ e).
+Proof.
+  induction t as [|p t IH]; intros e lk dd q' og H Hnd; cbn [scan_q] in H.
+  - inversion H; subst. cbn [app] in *. repeat split; auto. apply incl_refl.
+  - destruct (try_rooms (length (p_rooms p)) (p_rooms p) lk (alive dd p)) as [rooms' g]. cbn [app map] in Hnd.
+    destruct (requeue_circuits t p rooms') as (l1 & E1 & L1). destruct (requeue_circuits e p rooms') as (l2 & E2 & L2).
+    assert (Hlen : forall a, length (requeue a p rooms') <= S (length a)).
+    { intros a. unfold requeue. destruct rooms'; [lia | rewrite app_length; cbn; lia]. }
+    destruct g.
+    + inversion H; subst q' og. rewrite map_app, E1. repeat split.
+      * assert (Hp : Permutation (p_c p :: map p_c (t ++ e)) (p_c p :: (map p_c e ++ map p_c t))).
+        { apply perm_skip. rewrite map_app. apply Permutation_app_comm. }
+        pose proof (Permutation_NoDup Hp Hnd) as Hn2. destruct L1 as [->| ->].
+        -- rewrite app_nil_r. inversion Hn2; assumption.
+        -- rewrite app_assoc. eapply Permutation_NoDup; [|exact Hn2]. apply Permutation_cons_append.
+      * intros y Hy. cbn [app map]. rewrite map_app. apply in_app_or in Hy. destruct Hy as [Hy|Hy]; [right; apply in_or_app; right; exact Hy|].
+        apply in_app_or in Hy. destruct Hy as [Hy|Hy]; [right; apply in_or_app; left; exact Hy|].
+        destruct L1 as [->| ->]; [destruct Hy | destruct Hy as [Hy|[]]; left; exact Hy].
+      * rewrite !app_length. specialize (Hlen t). cbn [length]. rewrite ?app_length. lia.
+    + assert (Hnd' : NoDup (map p_c (t ++ requeue e p rooms'))).
+      { rewrite map_app, E2. rewrite map_app in Hnd.
+        assert (Hp : Permutation (p_c p :: (map p_c t ++ map p_c e)) ((map p_c t ++ map p_c e) ++ [p_c p])) by apply Permutation_cons_append.
+        pose proof (Permutation_NoDup Hp Hnd) as Hn2. destruct L2 as [->| ->].
+        - rewrite app_nil_r. inversion Hnd; assumption.
+        - rewrite app_assoc. exact Hn2. }
+      destruct (IH _ lk dd q' og H Hnd') as (A & B & C). split; [exact A|]. split.
+      * intros y Hy. apply B in Hy. cbn [app map]. rewrite map_app in *. rewrite E2 in Hy.
+        apply in_app_or in Hy. destruct Hy as [Hy|Hy]; [right; apply in_or_app; left; exact Hy|].
+        apply in_app_or in Hy. destruct Hy as [Hy|Hy]; [right; apply in_or_app; right; exact Hy|].
+        destruct L2 as [->| ->]; [destruct Hy | destruct Hy as [Hy|[]]; left; exact Hy].
+      * rewrite app_length in *. specialize (Hlen e). cbn [length]. lia.
+Qed.
+
+Definition qwf (CS : list N) (s : st) : Prop := NoDup (map p_c (queue s)) /\ incl (map p_c (queue s)) CS.
+Lemma qwf_length : forall CS s, qwf CS s -> length (queue s) <= length CS.
+Proof. intros CS s [A B]. rewrite <- (map_length p_c). apply NoDup_incl_length; assumption. Qed.
+
+Lemma acquire_lock_qwf : forall CS s s' g, qwf CS s -> acquire_lock s = (s', g) -> qwf CS s'.
+Proof.
+  intros CS s s' g [A B] H. apply acquire_lock_spec in H. destruct H as (q' & og & Hs & Hq & _).
+  rewrite <- (app_nil_r (queue s)) in A. destruct (scan_circuits _ _ _ _ _ _ Hs A) as (A' & B' & _). rewrite app_nil_r in B'.
+  unfold qwf. rewrite Hq. split; [exact A' | intros y Hy; apply B; apply B'; exact Hy].
+Qed.
+Lemma acquire_n_qwf : forall CS n s s' g, qwf CS s -> acquire_n n s = (s', g) -> qwf CS s'.
+Proof.
+  induction n as [|n IH]; intros s s' g Hw H; cbn [acquire_n] in H; [inversion H; subst; exact Hw|].
+  destruct (acquire_lock s) as [s1 g1] eqn:E1. destruct (acquire_n n s1) as [s2 g2] eqn:E2. inversion H; subst.
+  apply (IH s1 s' g2); [apply (acquire_lock_qwf CS s s1 g1 Hw E1) | exact E2].
+Qed.
+Lemma enqueue_qwf : forall CS q c rooms k, NoDup (map p_c q) -> incl (map p_c q) CS -> In c CS ->
+  NoDup (map p_c (enqueue q c rooms k)) /\ incl (map p_c (enqueue q c rooms k)) CS.
+Proof.
+  intros CS q c rooms k A B Hc. unfold enqueue. destruct (existsb (fun p => N.eqb (p_c p) c) q) eqn:E.
+  - rewrite merge_req_circuits. auto.
+  - rewrite map_app. cbn [map p_c]. split.
+    + eapply Permutation_NoDup; [apply Permutation_cons_append|]. constructor; [|exact A].
+      intros Hin. apply in_map_iff in Hin. destruct Hin as (p & Hp & Hin).
+      assert (existsb (fun p0 => N.eqb (p_c p0) c) q = true) by (apply existsb_exists; exists p; split; [exact Hin | apply N.eqb_eq; exact Hp]). congruence.
+    + intros y Hy. apply in_app_or in Hy. destruct Hy as [Hy|[Hy|[]]]; [apply B; exact Hy | subst; exact Hc].
+Qed.
+
+(* with distinct circuits, the entry of c that wants r is the first (only) entry of c *)
+Lemma exists_stands : forall c r s p, NoDup (map p_c (queue s)) -> In p (queue s) -> p_c p = c -> In r (p_rooms p) ->
+  stands c r s (length (queue s) - 1).
+Proof.
+  intros c r s p Hnd Hin Hc Hr. apply in_split in Hin. destruct Hin as (pre & post & Hq).
+  exists pre, p, post. split; [exact Hq|]. split; [exact Hc|]. split; [exact Hr|]. split.
+  - rewrite Hq, map_app in Hnd. cbn [map] in Hnd. apply NoDup_remove_2 in Hnd. intros x Hx E. apply Hnd.
+    apply in_or_app. left. rewrite Hc, <- E. apply in_map. exact Hx.
+  - rewrite Hq, app_length. cbn [length]. lia.
+Qed.
+
+(* a live entry keeps a room it is not granted *)
+Lemma acquire_lock_keeps : forall s s' g p r, acquire_lock s = (s', g) -> In p (queue s) -> alive (dead s) p = true -> In r (p_rooms p) ->
+  ~ In (p_c p, r) (map cr g) -> exists p', In p' (queue s') /\ p_c p' = p_c p /\ In r (p_rooms p') /\ p_gen p' = p_gen p.
+Proof.
+  intros s s' g p r H Hp Hal Hr Hng. apply acquire_lock_spec in H. destruct H as (q' & og & Hs & Hq & _ & Hcase).
+  apply scan_q_spec in Hs. destruct Hs as (_ & _ & _ & Q4 & _). rewrite app_nil_r in Q4.
+  destruct (Q4 p Hp Hal r Hr) as [Hx|(p' & Hp' & [A B] & C)].
+  - exfalso. apply Hng. destruct Hcase as [(Ho & _)|(c0 & k0 & r0 & Ho & Hg & _)]; [congruence|]. subst g. rewrite Ho in Hx. inversion Hx; subst. left. reflexivity.
+  - exists p'. rewrite Hq. auto.
+Qed.
+Lemma acquire_n_keeps : forall n s s' g p r, acquire_n n s = (s', g) -> In p (queue s) -> alive (dead s) p = true -> In r (p_rooms p) ->
+  ~ In (p_c p, r) (map cr g) -> exists p', In p' (queue s') /\ p_c p' = p_c p /\ In r (p_rooms p').
+Proof.
+  induction n as [|n IH]; intros s s' g p r H Hp Hal Hr Hng; cbn [acquire_n] in H; [inversion H; subst; exists p; auto|].
+  destruct (acquire_lock s) as [s1 g1] eqn:E1. destruct (acquire_n n s1) as [s2 g2] eqn:E2. inversion H; subst.
+  rewrite map_app in Hng.
+  destruct (acquire_lock_keeps s s1 g1 p r E1 Hp Hal Hr ltac:(intros X; apply Hng; apply in_or_app; left; exact X)) as (p1 & A & B & C & D).
+  assert (Hd : dead s1 = dead s).
+  { apply acquire_lock_spec in E1. destruct E1 as (? & ? & _ & _ & Hd & _). exact Hd. }
+  assert (Hal1 : alive (dead s1) p1 = true) by (rewrite Hd; unfold alive in *; rewrite B, D; exact Hal).
+  destruct (IH s1 s' g2 p1 r E2 A Hal1 C ltac:(rewrite B; intros X; apply Hng; apply in_or_app; right; exact X)) as (p2 & A2 & B2 & C2).
+  exists p2. split; [exact A2|]. split; [congruence | exact C2].
+Qed.
+Lemma acquire_n_dead : forall n s s' g, acquire_n n s = (s', g) -> dead s' = dead s.
+Proof.
+  induction n as [|n IH]; intros s s' g H; cbn [acquire_n] in H; [inversion H; reflexivity|].
+  destruct (acquire_lock s) as [s1 g1] eqn:E1. destruct (acquire_n n s1) as [s2 g2] eqn:E2. inversion H; subst.
+  rewrite (IH s1 s' g2 E2). apply acquire_lock_spec in E1. destruct E1 as (? & ? & _ & _ & Hd & _). exact Hd.
+Qed.
+
+(* the oracle's bookkeeping against the service state *)
+Definition tracked (B : nat) (s : st) (t : list N) (x : N * N * nat) : Prop :=
+  ~ In (fst (fst x)) t /\ exists m, stands (fst (fst x)) (snd (fst x)) s m /\ snd x + m < B.
+Record KI (CS : list N) (s : st) (b : bpst) : Prop := {
+  k_wf : qwf CS s;
+  k_dead : forall c k, In (c, k) (dead s) -> In c (snd b);
+  k_w : forall x, In x (fst b) -> tracked (length CS) s (snd b) x }.
+
+Lemma untainted_of : forall CS s b c, KI CS s b -> ~ In c (snd b) -> untainted c (dead s).
+Proof. intros CS s b c HK Hn k Hk. apply Hn. exact (k_dead _ _ _ HK _ _ Hk). Qed.
+
+Lemma existsb_perm {A} (f : A -> bool) : forall l l', Permutation l l' -> existsb f l = existsb f l'.
+Proof.
+  induction 1; cbn; auto.
+  - rewrite IHPermutation. reflexivity.
+  - destruct (f x), (f y); reflexivity.
+  - congruence.
+Qed.
+Lemma filter_length_perm {A} (f : A -> bool) : forall l l', Permutation l l' -> length (filter f l) = length (filter f l').
+Proof.
+  induction 1; cbn; auto.
+  - destruct (f x); cbn; congruence.
+  - destruct (f x), (f y); reflexivity.
+  - congruence.
+Qed.
+Lemma bp_grants_perm : forall w g g', Permutation g g' -> bp_grants w g = bp_grants w g'.
+Proof.
+  intros w g g' HP. unfold bp_grants.
+  rewrite (filter_ext _ (fun x => negb (existsb (fun g0 : grant => pair_eqb (fst (fst g0), snd g0) (fst x)) g'))).
+  - apply map_ext. intros x. rewrite (existsb_perm _ _ _ HP).
+    rewrite (filter_length_perm (fun g0 : grant => N.eqb (snd g0) (snd (fst x))) _ _ HP). reflexivity.
+  - intros x. rewrite (existsb_perm _ _ _ HP). reflexivity.
+Qed.
+
+(* the acquire phase of one message *)
+Lemma phase_tracked : forall CS k s1 s' g t w1,
+  qwf CS s1 -> (forall c kk, In (c, kk) (dead s1) -> In c t) ->
+  (forall x, In x w1 -> tracked (length CS) s1 t x) ->
+  acquire_n k s1 = (s', g) ->
+  qwf CS s' /\ (forall c kk, In (c, kk) (dead s') -> In c t) /\
+  (forall x, In x (bp_grants w1 g) -> tracked (length CS) s' t x).
+Proof.
+  intros CS k s1 s' g t w1 Hwf Hd Hw H.
+  pose proof (acquire_n_qwf CS k s1 s' g Hwf H) as Hwf'. pose proof (acquire_n_dead k s1 s' g H) as Hdd.
+  split; [exact Hwf'|]. split; [rewrite Hdd; exact Hd|].
+  intros x' Hx'. unfold bp_grants in Hx'. apply in_map_iff in Hx'. destruct Hx' as (x & Ex & Hx). apply filter_In in Hx. destruct Hx as [Hx Hkeep].
+  destruct x as [[c r] n]. cbn [fst snd] in *. destruct (Hw _ Hx) as (Hnt & m & Hst & Hlt). cbn [fst snd] in *.
+  assert (Hu : untainted c (dead s1)) by (intros kk Hk; apply Hnt; exact (Hd _ _ Hk)).
+  apply negb_true_iff in Hkeep.
+  assert (Hng : ~ In (c, r) (map cr g)).
+  { intros Hin. apply in_map_iff in Hin. destruct Hin as (g0 & E0 & Hg0).
+    assert (existsb (fun g1 : grant => pair_eqb (fst (fst g1), snd g1) (c, r)) g = true).
+    { apply existsb_exists. exists g0. split; [exact Hg0|]. unfold cr in E0. rewrite E0. apply pair_eqb_refl. }
+    congruence. }
+  destruct (existsb (fun g0 : grant => N.eqb (fst (fst g0)) c) g) eqn:Eg; subst x'; unfold tracked; cbn [fst snd].
+  - (* c was served another room: its entry is somewhere in the queue, the count starts again *)
+    split; [exact Hnt|]. destruct Hst as (pre & p & post & Hq & Hc & Hr & _ & _).
+    assert (Hp : In p (queue s1)) by (rewrite Hq; apply in_or_app; right; left; reflexivity).
+    destruct (acquire_n_keeps k s1 s' g p r H Hp (untainted_alive_p c _ p Hu Hc) Hr ltac:(rewrite Hc; exact Hng)) as (p' & A & B & C).
+    exists (length (queue s') - 1). split; [apply (exists_stands c r s' p' (proj1 Hwf') A); [congruence | exact C]|].
+    pose proof (qwf_length CS s' Hwf'). destruct (queue s'); [destruct A|]. cbn [length] in *. lia.
+  - split; [exact Hnt|].
+    assert (Hg : existsb (to_c c) g = false) by exact Eg.
+    destruct (acquire_n_epoch c r k s1 m s' g Hst Hu H Hg) as (St & L & _).
+    exists (m - ovl c r g). split; [exact St|].
+    assert (Hcount : length (filter (fun g0 : grant => N.eqb (snd g0) r) g) = ovl c r g).
+    { unfold ovl. f_equal. apply filter_ext_in. intros g0 Hg0. unfold ov1.
+      assert (to_c c g0 = false).
+      { destruct (to_c c g0) eqn:E; [|reflexivity]. assert (existsb (to_c c) g = true) by (apply existsb_exists; exists g0; auto). congruence. }
+      unfold to_c in H0. rewrite H0. cbn [negb]. rewrite andb_true_r. reflexivity. }
+    rewrite Hcount. lia.
+Qed.
+
+Lemma bp_request_in : forall rooms w c x,
+  In x (fold_left (fun acc r => if existsb (fun y : N * N * nat => pair_eqb (fst y) (c, r)) acc then acc else acc ++ [((c, r), O)]) rooms w) ->
+  In x w \/ exists r, In r rooms /\ x = ((c, r), O).
+Proof.
+  induction rooms as [|r rooms IH]; intros w c x H; cbn [fold_left] in H; [left; exact H|].
+  apply IH in H. destruct H as [H|(r0 & Hr0 & E)]; [|right; exists r0; split; [right; exact Hr0 | exact E]].
+  destruct (existsb (fun y : N * N * nat => pair_eqb (fst y) (c, r)) w); [left; exact H|].
+  apply in_app_or in H. destruct H as [H|[H|[]]]; [left; exact H | right; exists r; split; [left; reflexivity | symmetry; exact H]].
+Qed.
+
+Lemma stands_mono : forall c r s n n', stands c r s n -> n <= n' -> stands c r s n'.
+Proof. intros c r s n n' (pre & p & post & A & B & C & D & E) H. exists pre, p, post. repeat split; auto. lia. Qed.
+
+(* one message *)
+Lemma step_KI : forall CS s b m s' g g',
+  KI CS s b -> (forall c rooms k, m = Request c rooms k -> In c CS) ->
+  step s m = (s', g) -> Permutation g g' ->
+  KI CS s' (bp_grants (fst (bp_msg b m)) g', snd (bp_msg b m)).
+Proof.
+  intros CS s [w t] m s' g g' [Hwf Hd Hw] Hcs H HP. rewrite <- (bp_grants_perm _ _ _ HP). cbn [fst snd] in *.
+  assert (Hnone : forall w1 t1, (forall c kk, In (c, kk) (dead s') -> In c t1) -> qwf CS s' ->
+             (forall x, In x w1 -> tracked (length CS) s' t1 x) -> g = [] -> KI CS s' (bp_grants w1 g, t1)).
+  { intros w1 t1 A B C ->. constructor; cbn [fst snd]; auto. intros x Hx. unfold bp_grants in Hx. cbn [existsb negb filter] in Hx.
+    apply in_map_iff in Hx. destruct Hx as (y & Ey & Hy). apply filter_In in Hy. destruct Hy as [Hy _]. subst x.
+    destruct (C _ Hy) as (T1 & mm & T2 & T3). cbn [filter length fst snd]. unfold tracked. cbn [fst snd]. split; [exact T1|]. exists mm. split; [exact T2 | lia]. }
+  destruct m as [c rooms k|who r|c k]; cbn [step bp_msg] in *.
+  - (* Request *)
+    set (s1 := {| queue := enqueue (queue s) c rooms k; locked := locked s; avail := avail s; dead := dead s |}) in *.
+    destruct Hwf as [Hnd Hin]. destruct (enqueue_qwf CS (queue s) c rooms k Hnd Hin (Hcs c rooms k eq_refl)) as [Hnd1 Hin1].
+    assert (Hwf1 : qwf CS s1) by (split; assumption).
+    destruct (memN c t) eqn:Et; cbn [fst snd].
+    + assert (Hw1 : forall x, In x w -> tracked (length CS) s1 t x).
+      { intros x Hx. destruct (Hw x Hx) as (A & mm & B & C). split; [exact A|]. exists mm. split; [|exact C].
+        unfold stands. cbn [queue s1]. apply enqueue_stands. exact B. }
+      destruct (phase_tracked CS (avail s) s1 s' g t w Hwf1 Hd Hw1 H) as (A & B & C). constructor; cbn [fst snd]; auto.
+    + set (w1 := fold_left _ rooms w).
+      assert (Hw1 : forall x, In x w1 -> tracked (length CS) s1 t x).
+      { intros x Hx. apply bp_request_in in Hx. destruct Hx as [Hx|(r0 & Hr0 & Ex)].
+        - destruct (Hw x Hx) as (A & mm & B & C). split; [exact A|]. exists mm. split; [|exact C].
+          unfold stands. cbn [queue s1]. apply enqueue_stands. exact B.
+        - subst x. unfold tracked. cbn [fst snd]. split; [apply memN_false; exact Et|].
+          destruct (enqueue_has (queue s) c rooms k r0 Hr0) as (p & Hp & Hc & Hr).
+          exists (length (queue s1) - 1). split; [apply (exists_stands c r0 s1 p Hnd1 Hp Hc Hr)|].
+          pose proof (qwf_length CS s1 Hwf1). cbn [queue s1] in *. destruct (enqueue (queue s) c rooms k); [destruct Hp|]. cbn [length] in *. lia. }
+      destruct (phase_tracked CS (avail s) s1 s' g t w1 Hwf1 Hd Hw1 H) as (A & B & C). constructor; cbn [fst snd]; auto.
+  - (* Unlock *)
+    destruct (memN r (locked s)) eqn:Er.
+    + set (s1 := {| queue := queue s; locked := removeN r (locked s); avail := S (avail s); dead := dead s |}) in *.
+      assert (H1 : acquire_n 1 s1 = (s', g)).
+      { cbn [acquire_n]. rewrite H. rewrite app_nil_r. reflexivity. }
+      assert (Hw1 : forall x, In x w -> tracked (length CS) s1 t x) by exact Hw.
+      destruct (phase_tracked CS 1 s1 s' g t w Hwf Hd Hw1 H1) as (A & B & C). constructor; cbn [fst snd]; auto.
+    + inversion H; subst. apply Hnone; auto.
+  - (* DropChan *)
+    inversion H; subst. apply Hnone; cbn [dead queue]; auto.
+    + intros c0 kk [Hk|Hk]; [inversion Hk; subst; left; reflexivity | right; exact (Hd _ _ Hk)].
+    + intros x Hx. apply filter_In in Hx. destruct Hx as [Hx Hne]. apply negb_true_iff in Hne. apply N.eqb_neq in Hne.
+      destruct (Hw x Hx) as (A & mm & B & C). split; [|exists mm; split; [exact B | exact C]].
+      intros [Hc|Hc]; [congruence | exact (A Hc)].
+Qed.
+
+Lemma KI_bound : forall CS s b, KI CS s b -> forallb (fun x : N * N * nat => Nat.leb (snd x) (length CS)) (fst b) = true.
+Proof.
+  intros CS s b HK. apply forallb_forall. intros x Hx. destruct (k_w _ _ _ HK x Hx) as (_ & m & _ & Hlt). apply Nat.leb_le. lia.
+Qed.
+
+Lemma dedupN_In : forall l x, In x l <-> In x (dedupN l).
+Proof.
+  induction l as [|y l IH]; intros x; [tauto|]. cbn [dedupN]. destruct (memN y l) eqn:E.
+  - rewrite <- IH. split; [intros [H|H]; [subst; apply memN_In; exact E | exact H] | right; assumption].
+  - cbn [In]. rewrite <- IH. tauto.
+Qed.
+
+Theorem overtaking_history : forall tr CS s b gss,
+  KI CS s b -> (forall c rooms k, In (Request c rooms k) tr -> In c CS) ->
+  Forall2 (@Permutation grant) (run_from s tr) gss ->
+  bypass_from (length CS) b tr gss = true.
+Proof.
+  induction tr as [|m tl IH]; intros CS s b gss HK Hcs HF; cbn [run_from] in HF.
+  - inversion HF; subst. reflexivity.
+  - destruct (step s m) as [s' g] eqn:Es. inversion HF as [|g0 g' ? gtl HP HF']; subst. cbn [bypass_from].
+    pose proof (step_KI CS s b m s' g g' HK (fun c rooms k E => Hcs c rooms k (or_introl E)) Es HP) as HK'.
+    pose proof (KI_bound _ _ _ HK') as Hb. cbn [fst] in Hb. rewrite Hb. cbn [andb].
+    apply (IH CS s' _ gtl HK'); [intros c rooms k Hin; apply (Hcs c rooms k); right; exact Hin | exact HF'].
+Qed.
+
+(* the overtaking bound of the oracle holds on what the model observes, for EVERY history *)
+Theorem overtaking_oracle_holds : forall max tr, bypass_ok tr (run_lock max tr) = true.
+Proof.
+  intros max tr. unfold bypass_ok, run_lock.
+  rewrite <- (run_from_length tr (init max)), <- (map_length sort_g), decode_encode. unfold ncirc.
+  apply (overtaking_history tr (circuits_of tr) (init max) ([], [])).
+  - constructor; cbn; [split; [constructor | intros x []] | intros c k [] | intros x []].
+  - intros c rooms k Hin. unfold circuits_of. apply (proj1 (dedupN_In _ _)). apply in_flat_map. exists (Request c rooms k). split; [exact Hin | left; reflexivity].
+  - apply Forall2_sort.
+Qed.
+
+(* the whole service oracle (exclusive, bounded, once, never lost, bounded overtaking) outside class 1 *)
+Theorem outside_known_full : forall max tr,
+  known_C20 (CLock max tr) = [] -> spec_C20 (CLock max tr) (run_C20 (CLock max tr)) = true.
+Proof.
+  intros max tr Hk. cbn [spec_C20 run_C20].
+  assert (Hc : spec_core_lock max tr (run_lock max tr) = true).
+  { apply outside_known_class1. rewrite Hk. intros []. }
+  unfold spec_core_lock in Hc. destruct (spec_pair_lock max tr (run_lock max tr)) as [a b].
+  rewrite Hc, (overtaking_oracle_holds max tr). reflexivity.
+Qed.
+Theorem conn_benign_service_full : forall max es,
+  known_C20 (CConn max es) = [] ->
+  spec_C20 (CLock max (conn_trace max es)) (run_C20 (CLock max (conn_trace max es))) = true.
+Proof.
+  intros max es Hk. destruct (conn_benign_service_ok max es Hk) as [Hf _]. apply outside_known_full.
+  cbn [known_C20]. unfold known_lock. rewrite Hf. reflexivity.
+Qed.
+
+(* the schedule that starved connection 1 before 11e9468 (limit 2; 2 and 3 keep re-requesting the rooms
+   6 and 5 they are synchronising; 6 is always released before 5): connection 1 is now served by the
+   first release of room 5 *)
+Definition starve_case : c20case :=
+  CLock 2 [Request 3 [5] 0; Request 2 [6] 0; Request 1 [5] 0; Request 2 [6] 0; Request 3 [5] 0;
+           Unlock 2 6; Request 2 [6] 0; Unlock 3 5; Request 3 [5] 0;
+           Unlock 2 6; Request 2 [6] 0; Unlock 1 5; Request 1 [5] 0;
+           Unlock 2 6; Unlock 3 5; Unlock 2 6; Unlock 1 5]%N.
+Lemma former_starvation_schedule :
+  spec_C20 starve_case (run_C20 starve_case) = true /\ known_C20 starve_case = [] /\
+  run_from (init 2) [Request 3 [5] 0; Request 2 [6] 0; Request 1 [5] 0; Request 2 [6] 0; Request 3 [5] 0;
+                     Unlock 2 6; Request 2 [6] 0; Unlock 3 5]%N =
+    [[(3, 0, 5)]; [(2, 0, 6)]; []; []; []; [(2, 0, 6)]; []; [(1, 0, 5)]]%N.
 Proof. vm_compute. repeat split. Qed.
-
-Lemma starve_rep : forall n,
-  state_after starve_state (rep n starve_cycle) = starve_state /\
-  run_from starve_state (rep n starve_cycle) = rep n starve_grants /\
-  foreign_from starve_state starve_ghost (rep n starve_cycle) = false.
-Proof.
-  destruct starve_period as (P1 & P2 & _ & P4 & _ & P6).
-  induction n as [|n (I1 & I2 & I3)]; [repeat split|]. cbn [rep].
-  rewrite state_after_app, run_from_app, foreign_from_app, P1, P2, P4, P6. cbn [fst snd orb].
-  rewrite I1, I2, I3. repeat split.
-Qed.
-
-Lemma overtaken_app : forall c r a b, overtaken c r (a ++ b) = (overtaken c r a + overtaken c r b)%nat.
-Proof. intros. unfold overtaken. rewrite concat_app, filter_app, app_length. reflexivity. Qed.
-Lemma overtaken_rep : forall n, overtaken 1 5 (rep n starve_grants) = n.
-Proof.
-  induction n as [|n IH]; [reflexivity|]. cbn [rep]. rewrite overtaken_app, IH. reflexivity.
-Qed.
-Lemma in_rep {A} : forall n (l : list A) x, In x (rep n l) -> In x l.
-Proof.
-  induction n as [|n IH]; intros l x H; [destruct H|]. cbn [rep] in H. apply in_app_or in H. destruct H; [assumption | apply IH; assumption].
-Qed.
-Lemma concat_rep {A} : forall n (l : list (list A)), concat (rep n l) = rep n (concat l).
-Proof. induction n as [|n IH]; intros l; [reflexivity|]. cbn [rep]. rewrite concat_app, IH. reflexivity. Qed.
-
-(* the waiting request is overtaken as often as one likes, by a history in which every release
-   comes from the holder and every grant is released *)
-Theorem starvation_witness : forall n,
-  foreign_lock 2 (starve_setup ++ rep n starve_cycle) = false /\
-  (exists p, In p (queue starve_state) /\ p_c p = 1%N /\ In 5%N (p_rooms p)) /\
-  (forall g, In g (concat (run_from starve_state (rep n starve_cycle))) -> cr g <> (1, 5)%N) /\
-  (forall k, ~ In (DropChan 1 k) (rep n starve_cycle)) /\
-  overtaken 1 5 (run_from starve_state (rep n starve_cycle)) = n.
-Proof.
-  intros n. destruct starve_period as (_ & _ & P3 & _ & P5 & _). destruct (starve_rep n) as (R1 & R2 & R3).
-  split; [|split; [|split; [|split]]].
-  - unfold foreign_lock. rewrite foreign_from_app, P5, P3. cbn [fst snd orb]. exact R3.
-  - vm_compute. eexists. split; [left; reflexivity|]. split; [reflexivity | left; reflexivity].
-  - intros g Hg. rewrite R2, concat_rep in Hg. apply in_rep in Hg. cbn in Hg.
-    destruct Hg as [Hg|[Hg|[]]]; subst g; cbn; discriminate.
-  - intros k Hk. apply in_rep in Hk. cbn in Hk. repeat (destruct Hk as [Hk|Hk]; [discriminate|]). destruct Hk.
-  - rewrite R2. apply overtaken_rep.
-Qed.
-Theorem starvation_refuted : ~ C20_no_starvation.
-Proof.
-  intros H. destruct (starvation_witness 0) as (_ & Hp & _).
-  destruct (H 2 starve_setup 1%N 5%N Hp) as [bound Hb].
-  destruct (starvation_witness (S bound)) as (_ & _ & Hg & Hd & Ho).
-  specialize (Hb (rep (S bound) starve_cycle) Hd Hg). fold starve_state in Hb. rewrite Ho in Hb. lia.
-Qed.
 
 (* ------------------------------------------------------------------ the pieces of the connection code the harness plays itself *)
 (* what model/Lock.v (and the harness: loop branch, end of connection, quiescence by channel capacity)
